@@ -592,7 +592,7 @@ func writeManifest(verif string) {
 		ids = append(ids, fmt.Sprintf("C%02d", i))
 	}
 	var checks []map[string]interface{}
-	var na []map[string]string
+	na := []map[string]string{}
 	var served []string
 	for _, id := range ids {
 		rs := an.RulesFor(id)
